@@ -59,13 +59,18 @@ class UMNDirHandler(DirHandler):
             # If the parent says it's OK, then let's see if it's
             # a link file.  If yes, process it and return false.
             if file[0] == ".":
-                if not self.vfs.isdir(self.selectorbase + "/" + file):
-                    self.linkentries.extend(
-                        self.processLinkFile(self.selectorbase + "/" + file)
-                    )
-                    return False
-                else:
-                    return False  # A "dot dir" -- ignore.
+                # Only a regular file can be a link file.  A "dot dir", a
+                # dangling symlink (an editor's lock file), a socket or a
+                # FIFO is ignored; so is a link file that vanishes or
+                # cannot be read.  None of them may fail the whole listing.
+                if self.vfs.isfile(self.selectorbase + "/" + file):
+                    try:
+                        self.linkentries.extend(
+                            self.processLinkFile(self.selectorbase + "/" + file)
+                        )
+                    except OSError:
+                        pass
+                return False
             return True  # Not a dot file -- return true
         else:
             return False  # Parent returned 0, do the same.
